@@ -396,7 +396,7 @@ func runC12(p *core.Prog, r *core.Report) {
 			}
 		}
 		initF := core.FieldOf(p.Named(pkgPBV1, "Module"), "InitialBlock")
-		core.Instrs(rf, func(in ssa.Instruction) {
+		core.InstrsDeep(rf, func(in ssa.Instruction) {
 			ifi, isIf := in.(*ssa.If)
 			if !isIf {
 				return
@@ -430,21 +430,11 @@ func runC12(p *core.Prog, r *core.Report) {
 				continue
 			}
 			// the initial block of the stage is the running minimum over the layer's modules
-			arg := core.SkipConv(wc.Call.Args[1])
-			ph, isPhi := arg.(*ssa.Phi)
-			if !isPhi {
-				continue
-			}
-			for _, e := range ph.Edges {
-				if mc, ok := isMin(e); ok {
-					for _, a := range mc.Call.Args {
-						if core.SkipConv(a) == ssa.Value(ph) {
-							okStage = true
-						}
-					}
-				}
+			if isMinFold(fn.Pkg, wc.Call.Args[1], 1) {
+				okStage = true
 			}
 		}
+		_ = isMin
 		r.Check(okStage, "C12.R2", "NewStages/stage-segmenter", "a stage's segmenter starts at the lowest initial block of the modules of its last layer (the running minimum over all of them, not the first module's)", "NewStage does not receive segmenter.WithInitialBlock(<minimum over the layer>)", p.Pos(fn.Pos()))
 		for _, c := range core.FindInstrs(fn, core.IsCallTo(p.FuncObj(pkgStage, "NewModuleState"))) {
 			args := c.(ssa.CallInstruction).Common().Args
@@ -632,7 +622,7 @@ func checkPlanProvenance(p *core.Prog, r *core.Report) {
 			pred := ph.Block().Preds[i]
 			// pred reachable only via the edge where exclusiveEnd < handoff, and via exclusiveEnd != 0
 			lt, nz := false, false
-			core.Instrs(fn, func(in ssa.Instruction) {
+			core.InstrsDeep(fn, func(in ssa.Instruction) {
 				ifi, ok := in.(*ssa.If)
 				if !ok {
 					return
@@ -681,7 +671,7 @@ func checkImpossibleRequests(p *core.Prog, r *core.Report) {
 	}
 	errEdge := func(fn *ssa.Function, isA, isB func(ssa.Value) bool, want int) bool {
 		found := false
-		core.Instrs(fn, func(in ssa.Instruction) {
+		core.InstrsDeep(fn, func(in ssa.Instruction) {
 			ifi, ok := in.(*ssa.If)
 			if !ok {
 				return
@@ -710,7 +700,7 @@ func checkImpossibleRequests(p *core.Prog, r *core.Report) {
 		"a start block below the lowest initial block of the module graph is an error, not a plan", "no `resolvedStartBlock < lowestInitialBlock → error`", p.Pos(fn.Pos()))
 	// nil range from the segmenter → error
 	okNil := false
-	core.Instrs(fn, func(in ssa.Instruction) {
+	core.InstrsDeep(fn, func(in ssa.Instruction) {
 		ifi, ok := in.(*ssa.If)
 		if !ok {
 			return
@@ -1093,7 +1083,7 @@ func checkBackprocessSegmenter(p *core.Prog, r *core.Report) {
 	want := []pair{{"BuildStores", "StartBlock"}, {"WriteExecOut", "StartBlock"}, {"BuildStores", "ExclusiveEndBlock"}, {"WriteExecOut", "ExclusiveEndBlock"}}
 	// edges on which one of the two ranges is known to be nil
 	var nilEdges []core.Edge
-	core.Instrs(fn, func(in ssa.Instruction) {
+	core.InstrsDeep(fn, func(in ssa.Instruction) {
 		ifi, ok := in.(*ssa.If)
 		if !ok {
 			return
